@@ -264,11 +264,13 @@ func Check(o Options) int {
 			Prog: ld.prog, Fn: fn, Property: o.Property, Regions: regions,
 			Jobs: o.Jobs, Seed: o.Seed, SolverKind: o.Solver, Trace: o.Trace, Tier: o.Tier,
 			SampleEvery: 1, MaxSamples: 8, TimeoutMs: 10000, MaxSeconds: 420, Progress: o.Verbose,
+			CrossCheckMax: 40,
 		}
 		if o.Tier == "thorough" {
 			ex.MaxSamples = 48
 			ex.TimeoutMs = 60000
 			ex.MaxSeconds = 3 * 3600
+			ex.CrossCheckMax = 2000
 		}
 		if o.Trace {
 			ex.Jobs = 1
